@@ -511,6 +511,14 @@ pub fn quantize_vector_symmetric(v: &[f32]) -> Vec<i8> {
     }
 
     let scale = 127.0 / max_abs;
+    if !scale.is_finite() {
+        // max_abs below 127 / f32::MAX: the scale overflows and every non-zero component would
+        // be coded +-127. Divide first instead.
+        return v
+            .iter()
+            .map(|&x| (x / max_abs * 127.0).round().clamp(-127.0, 127.0) as i8)
+            .collect();
+    }
     v.iter()
         .map(|&x| (x * scale).round().clamp(-127.0, 127.0) as i8)
         .collect()
